@@ -1,6 +1,6 @@
 //! C03 engine binary: every safe insertion entry point against full containers.
 use engines::common::Ctx;
-use engines::fam::{Copyf, Fam, Heap, Large, Raw, Track};
+use engines::fam::{AlignF, Copyf, Fam, Heap, K12F, Large, OddF, Raw, TinyF, Track, WordF};
 use engines::full::Full;
 
 fn family<F: Fam>(f: &mut Full, states: u64, big: bool) {
@@ -62,6 +62,12 @@ fn main() {
             "raw" => family::<Raw>(&mut f, states, true),
             "heap" => family::<Heap>(&mut f, states, true),
             "large" => family::<Large>(&mut f, states.min(40), false),
+            // drop-less elements of unusual size / alignment whose == is not bit equality
+            "tiny" => family::<TinyF>(&mut f, states.min(60), false),
+            "word" => family::<WordF>(&mut f, states.min(60), false),
+            "odd" => family::<OddF>(&mut f, states.min(60), false),
+            "k12" => family::<K12F>(&mut f, states.min(60), false),
+            "align" => family::<AlignF>(&mut f, states.min(40), false),
             "zst" => {
                 if states > 0 {
                     f.zst::<0>();
